@@ -19,6 +19,11 @@ def standin(name, plan, log):
     state = {'n': 0}
 
     def eat(interp, a, kw):
+        if state.get('finished'):
+            # like FileInspector.eat_chunk after finish()
+            interp.effect('eat-after-finish', name)
+            raise AbsRaise(Obj(None, {'__class_name__': 'RuntimeError'},
+                               label='marked-finished-%s' % name))
         i = state['n']
         state['n'] += 1
         interp.effect('eat', name, interp.termify(a[0]) if a else None)
@@ -37,11 +42,19 @@ def standin(name, plan, log):
         def get():
             seq = plan.get(which, ())
             i = max(state['n'] - 1, 0)
+            ff = plan.get('flag_fault', {})
+            if i in ff:
+                # reading complete / format_match of this inspector fails
+                raise AbsRaise(Obj(None, {'__class_name__': ff[i]},
+                                   label='flagfault-%s-%d' % (name, i)))
             return K(bool(seq[min(i, len(seq) - 1)])) if seq else K(False)
         return get
     o.fields['eat_chunk'] = AbsFunc('eat_chunk', eat)
-    o.fields['finish'] = AbsFunc('finish', lambda i, a, k: (
-        i.effect('finish', name), K(None))[1])
+    def finish(i, a, k):
+        i.effect('finish', name)
+        state['finished'] = True
+        return K(None)
+    o.fields['finish'] = AbsFunc('finish', finish)
     o.fields['__str__'] = AbsFunc('__str__', lambda i, a, k: K(name))
     o.dyn = {'complete': flag('complete'), 'format_match': flag('match')}
     return o
@@ -74,7 +87,7 @@ def install(world, interp, plans, log=None):
     return restore, made
 
 
-def source(n_chunks, kind, empties=()):
+def source(n_chunks, kind, empties=(), closable=True):
     src = Obj(None, {}, label='source')
     st = {'i': 0}
 
@@ -103,9 +116,10 @@ def source(n_chunks, kind, empties=()):
         src.fields['read'] = AbsFunc('read', read)
     else:
         src.fields['__next__'] = AbsFunc('__next__', nxt)
-    src.fields['close'] = AbsFunc('close', lambda i, a, k: (
-        i.effect('source.close'), K(None))[1])
-    src.fields['__hasattr__'] = {'close': True}
+    if closable:
+        src.fields['close'] = AbsFunc('close', lambda i, a, k: (
+            i.effect('source.close'), K(None))[1])
+    src.fields['__hasattr__'] = {'close': closable}
     return src
 
 
@@ -209,6 +223,20 @@ def run(ctx):
                 n_cases += 1
                 _scenario(ctx, cls, kind, None, plans, n_chunks,
                           empties=empties)
+    # complete / format_match of a non-expected inspector may raise too:
+    # that is a failure inside an inspector and must not reach the reader
+    for kind in ('file', 'iter'):
+        for expected in (None, 'vhdx'):
+            for who, at in (('qcow2', 0), ('vhd', 1), ('raw', 2)):
+                plans = {n: {} for n in names}
+                plans[who]['flag_fault'] = {at: 'struct.error'}
+                if expected:
+                    plans[expected]['complete'] = (False, False, False)
+                    plans[expected]['match'] = (False, False, False)
+                n_cases += 1
+                _scenario(ctx, cls, kind, expected, plans, n_chunks)
+    # read sizes are the caller's business: None / -1 / 0 go to the source
+    n_cases += _read_sizes(ctx, cls)
     # an empty allowed_formats means "all formats"
     for kind in ('file', 'iter'):
         for allowed in ([], ()):
@@ -223,6 +251,68 @@ def run(ctx):
     n_cases += query_invariance(ctx)
     _finish_never_raises(ctx)
     rep.count('fault scenarios', n_cases, floor=300)
+
+
+def _read_sizes(ctx, cls):
+    rep, world = ctx.report, ctx.world
+    n = 0
+    for sizes in ((None,), (512, None), (-1,), (0, 7), (1, -1, None)):
+        n += 1
+        holder = {}
+
+        def thunk(interp, sizes=sizes):
+            plans = {nm: {} for nm in NAMES}
+            restore, made = install(world, interp, plans)
+            try:
+                src = Obj(None, {}, label='source')
+                st = {'i': 0}
+
+                def read(i2, a, kw):
+                    i = st['i']
+                    st['i'] += 1
+                    i2.effect('source.read', K(i), tuple(
+                        i2.termify(x) for x in a))
+                    t = T('sym', 'chunk%d' % i)
+                    i2.types[t] = 'bytes'
+                    return t
+                src.fields['read'] = AbsFunc('read', read)
+                src.fields['__hasattr__'] = {'close': False}
+                w = interp.call(cls, [src])
+                interp.effects[:] = []
+                out = []
+                for sz in sizes:
+                    out.append(interp.call(interp.get_attr(w, 'read'),
+                                           [K(sz)]))
+                return TupleV(out)
+            finally:
+                restore()
+        outcomes, _i = extract(world, thunk, depth=6)
+        key = 'InspectWrapper.read[sizes %s]' % (sizes,)
+        notes = inexact_notes(outcomes)
+        if notes or not outcomes:
+            rep.undecided('R6.1', key, 'inexact: %s' % notes)
+            continue
+        for o in outcomes:
+            reads = [e for e in o.effects if e[0] == 'source.read']
+            ok = o.kind == 'return' and isinstance(o.value, TupleV) and \
+                [x for x in o.value.items] == [
+                    T('sym', 'chunk%d' % i) for i in range(len(sizes))] and \
+                [e[2] for e in reads] == [(K(sz),) for sz in sizes]
+            fed = {}
+            for e in o.effects:
+                if e[0] == 'eat':
+                    fed.setdefault(e[1], []).append(e[2])
+            ok = ok and all(fed.get(nm) == [
+                T('sym', 'chunk%d' % i) for i in range(len(sizes))]
+                for nm in NAMES)
+            rep.check('R6.1', key, ok,
+                      'every read(size) asks the source for exactly that '
+                      'size, returns what it got and feeds it to every '
+                      'inspector; found %s, source asked %s, fed %s' % (
+                          o.brief()[:80], [show(T('c', *e[2])) for e in
+                                           reads], {k: len(v) for k, v in
+                                                    fed.items()}))
+    return n
 
 
 def query_invariance(ctx):
